@@ -9,6 +9,7 @@ import (
 	"go/token"
 	"go/types"
 	"sort"
+	"strings"
 
 	"golang.org/x/tools/go/ssa"
 )
@@ -73,7 +74,7 @@ func c10R5(c *Ctx) { sessionStateAfterAuth(c, "C10.R5") }
 
 func sessionStateAfterAuth(c *Ctx, rule string) {
 	P := c.P
-	c.Rule(rule, map[string]string{"C10.R5": "", "C03.R8": "(shared with C10.R5) "}[rule]+ "an established session changes only on authentic packets: inside readPacketLocked every store to a SessionState field and every call that mutates the replay window lies after a nil AEAD Open on the path; in both handleSessionMessage functions every store to a SessionState field lies after readPacketLocked returned nil (a forged datagram with a live session id must not move the window, the counters or the address: it would wedge the session) (E1 order)")
+	c.Rule(rule, map[string]string{"C10.R5": "", "C03.R8": "(shared with C10.R5) "}[rule]+"an established session changes only on authentic packets: inside readPacketLocked every store to a SessionState field and every call that mutates the replay window lies after a nil AEAD Open on the path; in both handleSessionMessage functions every store to a SessionState field lies after readPacketLocked returned nil (a forged datagram with a live session id must not move the window, the counters or the address: it would wedge the session) (E1 order)")
 	rd := P.Func("transport", "(*SessionState).readPacketLocked")
 	if rd == nil {
 		c.Undecided(rule, "transport.(*SessionState).readPacketLocked", "function not found")
@@ -246,6 +247,7 @@ func checkC11(c *Ctx) {
 		}
 		return false, "a frame that fails to decode makes readMsg return an error, and that error ends the receive loop: one malformed frame stops every tube"
 	})
+	c11SentinelAgreement(c, rcv)
 	c11Bounds(c)
 	c11R5(c)
 	c.Rule("C11.R6", "a repeated REQ cannot crash the muxer: every send on Unreliable.sendQueue from the receive path lies in a critical section of lifecycleMu that found the tube not closed (see C16.R7) (E1 + E5)")
@@ -631,4 +633,132 @@ func sessionKeyIn(P *Program, fn *ssa.Function) ssa.Value {
 		})
 	}
 	return found
+}
+
+// c11SentinelAgreement (part of C11.R4): the receive loop recognises a frame that does not decode by a
+// sentinel error (errors.Is(err, G) or err == G) and continues; any other error ends the loop and with it
+// every tube. So every error the frame decoder can return must be that sentinel: G itself, or — when
+// the filter is errors.Is — an error that wraps it (fmt.Errorf with %w and G among the operands,
+// errors.Join with G). An error that merely prints like the sentinel is a stop of the whole muxer that
+// a peer can trigger with one frame.
+func c11SentinelAgreement(c *Ctx, rcv *ssa.Function) {
+	P := c.P
+	const rule = "C11.R4"
+	fb := P.Func("tubes", "fromBytes")
+	if rcv == nil || fb == nil {
+		return // reported by the loop rule
+	}
+	globalOf := func(v ssa.Value) *ssa.Global {
+		if u, ok := strip(v).(*ssa.UnOp); ok && u.Op == token.MUL {
+			if g, ok := u.X.(*ssa.Global); ok {
+				return g
+			}
+		}
+		return nil
+	}
+	var sentinel *ssa.Global
+	viaIs := false
+	eachInstr(rcv, func(ins ssa.Instruction) {
+		switch x := ins.(type) {
+		case *ssa.Call:
+			if calleeID(x) == "errors.Is" && len(x.Call.Args) == 2 {
+				if g := globalOf(x.Call.Args[1]); g != nil {
+					sentinel, viaIs = g, true
+				}
+			}
+		case *ssa.BinOp:
+			if x.Op == token.EQL || x.Op == token.NEQ {
+				for _, v := range []ssa.Value{x.X, x.Y} {
+					if g := globalOf(v); g != nil && isErrorType(g.Type().(*types.Pointer).Elem()) && sentinel == nil {
+						sentinel = g
+					}
+				}
+			}
+		}
+	})
+	if sentinel == nil {
+		return // no sentinel filter: the loop rule decides whether decode errors may end the loop
+	}
+	name := FuncName(fb)
+	n := 0
+	var classify func(v ssa.Value, depth int) (bool, ssa.Value)
+	classify = func(v ssa.Value, depth int) (bool, ssa.Value) {
+		if depth > 6 {
+			return false, v
+		}
+		v = strip(v)
+		if isNilConst(v) {
+			return true, nil
+		}
+		if g := globalOf(v); g != nil {
+			return g == sentinel, v
+		}
+		switch x := v.(type) {
+		case *ssa.Phi:
+			for _, e := range x.Edges {
+				if ok, bad := classify(e, depth+1); !ok {
+					return false, bad
+				}
+			}
+			return true, nil
+		case *ssa.MakeInterface:
+			return classify(x.X, depth+1)
+		case *ssa.Call:
+			if !viaIs {
+				return false, v
+			}
+			id := calleeID(x)
+			wraps := false
+			// operands (variadic slice contents included)
+			var ops []ssa.Value
+			for _, a := range x.Call.Args {
+				ops = append(ops, a)
+				if sl, ok := a.(*ssa.Slice); ok {
+					if al, ok := sl.X.(*ssa.Alloc); ok {
+						for _, r := range *al.Referrers() {
+							if ia, ok := r.(*ssa.IndexAddr); ok {
+								for _, rr := range *ia.Referrers() {
+									if st, ok := rr.(*ssa.Store); ok {
+										ops = append(ops, st.Val)
+									}
+								}
+							}
+						}
+					}
+				}
+			}
+			hasSentinel := false
+			for _, o := range ops {
+				if mi, ok := o.(*ssa.MakeInterface); ok {
+					o = mi.X
+				}
+				if globalOf(o) == sentinel {
+					hasSentinel = true
+				}
+			}
+			switch id {
+			case "fmt.Errorf":
+				if f := constStr(x.Call.Args[0]); strings.Contains(f, "%w") && hasSentinel {
+					wraps = true
+				}
+			case "errors.Join":
+				wraps = hasSentinel
+			}
+			return wraps, v
+		}
+		return false, v
+	}
+	for _, b := range fb.Blocks {
+		r, ok := b.Instrs[len(b.Instrs)-1].(*ssa.Return)
+		if !ok || len(r.Results) != 2 {
+			continue
+		}
+		if isNilConst(r.Results[1]) {
+			continue
+		}
+		n++
+		okv, _ := classify(r.Results[1], 0)
+		c.Check(okv, rule, fmt.Sprintf("%s#decode-error%d", name, n), P.InstrPos(r), "the decoder's error is the sentinel the receive loop filters", "the frame decoder returns an error that the receive loop's malformed-frame filter ("+sentinel.Name()+") does not recognise: one frame with an inconsistent header ends the loop and stops every tube of the muxer")
+	}
+	c.Floor(rule, "error returns of fromBytes", n, 1)
 }
